@@ -171,12 +171,14 @@ func (j *cacheJanitor[MetadataT]) evict(maxCacheBytes int64) {
 	now := time.Now()
 
 	for key, meta := range j.cacheFns.cacheIterator {
-		timeSinceAccess := now.Sub(meta.LastAccess).Milliseconds()
+		// Age at full resolution, so that entries used less than a millisecond apart
+		// are still ordered by use.
+		timeSinceAccess := int64(now.Sub(meta.LastAccess))
 		sizeWeight := meta.Size / bytesize.UnitM
 
 		// Calculate eviction priority (highest = evict first)
 		// Factors: age since last access + file size weight
-		priority := timeSinceAccess + (sizeWeight * 100) // Give size significant weight
+		priority := timeSinceAccess + (sizeWeight * 100 * int64(time.Millisecond)) // Give size significant weight
 
 		candidates = append(candidates, entryForEviction{
 			key:      key,
